@@ -137,10 +137,12 @@ struct Model {
     note: u8,
     vel: u8,
     vel_set: bool,
-    bend: u16,
-    cc: [u8; 5], // mod wheel, volume, cutoff, resonance, portamento time
-    porta_on: bool,
-    sustain_on: bool,
+    /// outputs observed on the fresh receiver: the power-on defaults that CC 121 restores
+    def: Option<Outs>,
+    bend: Option<u16>,
+    cc: [Option<u8>; 5], // mod wheel, volume, cutoff, resonance, portamento time
+    porta_on: Option<bool>,
+    sustain_on: Option<bool>,
     priority: u8,
     retrigger: bool,
     cap_exceeded: bool,
@@ -158,10 +160,11 @@ impl Model {
             note: 0,
             vel: 0,
             vel_set: false,
-            bend: 8192,
-            cc: [0; 5],
-            porta_on: true,
-            sustain_on: true,
+            def: None,
+            bend: None,
+            cc: [None; 5],
+            porta_on: None,
+            sustain_on: None,
             priority: 0,
             retrigger: false,
             cap_exceeded: false,
@@ -210,8 +213,8 @@ impl Model {
         self.gate = false;
         self.rising = false;
     }
-    fn bend_f64(&self) -> f64 {
-        let v = self.bend as i32 - 8192;
+    fn bend_f64(b: u16) -> f64 {
+        let v = b as i32 - 8192;
         if v > 0 {
             v as f64 / 8191.0
         } else {
@@ -283,22 +286,35 @@ impl Exec {
         let m = &self.m;
         let notes_ok = !m.cap_exceeded;
         let vel_exp = (m.vel as f32 / 127.0).to_bits();
-        let vel_ok = if m.vel_set { o.vel == vel_exp } else { o.vel == 0.0f32.to_bits() };
+        let def = m.def.unwrap_or(o);
+        let vel_ok = if m.vel_set { o.vel == vel_exp } else { o.vel == def.vel };
         let note_side = !notes_ok || (o.gate == m.gate && o.note == m.note && vel_ok);
         let mut cc_ok = true;
         for i in 0..5 {
-            if o.cc[i] != (m.cc[i] as f32 / 127.0).to_bits() {
+            let want = match m.cc[i] {
+                Some(v) => (v as f32 / 127.0).to_bits(),
+                None => def.cc[i],
+            };
+            if o.cc[i] != want {
                 cc_ok = false;
             }
         }
-        let bend_ok = (f32::from_bits(o.bend) as f64 - m.bend_f64()).abs() <= 1e-4
-            && (m.bend != 8192 || f32::from_bits(o.bend) == 0.0)
-            && (m.bend != 0 || f32::from_bits(o.bend) == -1.0)
-            && (m.bend != 16383 || f32::from_bits(o.bend) == 1.0);
-        let ctl_side = cc_ok && bend_ok && o.porta_on == m.porta_on && o.sustain_on == m.sustain_on;
+        let bend_ok = match m.bend {
+            None => o.bend == def.bend,
+            Some(b) => {
+                let got = f32::from_bits(o.bend);
+                (got as f64 - Model::bend_f64(b)).abs() <= 1e-4
+                    && (b != 8192 || got == 0.0)
+                    && (b != 0 || got == -1.0)
+                    && (b != 16383 || got == 1.0)
+            }
+        };
+        let porta_ok = o.porta_on == m.porta_on.unwrap_or(def.porta_on);
+        let sus_ok = o.sustain_on == m.sustain_on.unwrap_or(def.sustain_on);
+        let ctl_side = cc_ok && bend_ok && porta_ok && sus_ok;
         let describe = |what: &str| {
             format!(
-                "after byte 0x{:02x} ({}): receiver gate={} note={} vel={} bend={} cc={:?} porta={} sus={} | decoded stream says gate={} note={} vel={}/127 bend14={} cc={:?} porta={} sus={} held={:?}",
+                "after byte 0x{:02x} ({}): receiver gate={} note={} vel={} bend={} cc={:?} porta={} sus={} | decoded stream says gate={} note={} vel={}/127 bend14={:?} cc={:?} porta={:?} sus={:?} held={:?} (None = power-on default)",
                 b,
                 what,
                 o.gate,
@@ -348,6 +364,24 @@ fn retrig(r: bool) -> RetriggerMode {
     } else {
         RetriggerMode::NoRetrigger
     }
+}
+
+/// a fresh receiver as the firmware sets it up: the modes are written explicitly (their power-on values are not
+/// part of any property), the remaining power-on outputs are observed and become the model's defaults
+fn fresh(ch: u8, priority: u8, retrigger: bool) -> (MonoMidiReceiver, MonoMidiReceiver, Model) {
+    let mut rx = real!(MonoMidiReceiver::new(ch));
+    let mut twin = real!(MonoMidiReceiver::new(ch));
+    real!(rx.set_note_priority(prio(priority)));
+    real!(twin.set_note_priority(prio(priority)));
+    real!(rx.set_retrigger_mode(retrig(retrigger)));
+    real!(twin.set_retrigger_mode(retrig(retrigger)));
+    let mut m = Model::new(ch);
+    m.priority = priority.min(2);
+    m.retrigger = retrigger;
+    let o = outs(&rx);
+    m.def = Some(o);
+    m.note = o.note;
+    (rx, twin, m)
 }
 
 impl Engine for MidiEngine {
@@ -400,10 +434,11 @@ impl Engine for MidiEngine {
     type Exec = Exec;
 
     fn new_exec(cfg: &Cfg, _ctx: &mut Ctx) -> Exec {
+        let (rx, twin, m) = fresh(cfg.ch, 0, false);
         Exec {
-            rx: real!(MonoMidiReceiver::new(cfg.ch)),
-            twin: real!(MonoMidiReceiver::new(cfg.ch)),
-            m: Model::new(cfg.ch),
+            rx,
+            twin,
+            m,
             twin_dec: Decoder::default(),
             foreign_left: 0,
             need_status: false,
@@ -474,27 +509,27 @@ impl Engine for MidiEngine {
                                 }
                             }
                             0xE => {
-                                m.bend = ((msg.d2 as u16) << 7) | msg.d1 as u16;
+                                m.bend = Some(((msg.d2 as u16) << 7) | msg.d1 as u16);
                                 ctx.probe(P_BEND_ON_CHANNEL);
-                                ctx.cover(1 << 20 | m.bend as u32);
+                                ctx.cover(1 << 20 | m.bend.unwrap_or(0) as u32);
                             }
                             0xB => {
                                 ctx.probe(P_CC_ON_CHANNEL);
                                 ctx.cover((msg.d1 as u32) << 7 | msg.d2 as u32);
                                 match msg.d1 {
-                                    1 => m.cc[0] = msg.d2,
-                                    7 => m.cc[1] = msg.d2,
-                                    71 => m.cc[2] = msg.d2,
-                                    74 => m.cc[3] = msg.d2,
-                                    5 => m.cc[4] = msg.d2,
-                                    65 => m.porta_on = msg.d2 >= 64,
-                                    64 => m.sustain_on = msg.d2 >= 64,
+                                    1 => m.cc[0] = Some(msg.d2),
+                                    7 => m.cc[1] = Some(msg.d2),
+                                    71 => m.cc[2] = Some(msg.d2),
+                                    74 => m.cc[3] = Some(msg.d2),
+                                    5 => m.cc[4] = Some(msg.d2),
+                                    65 => m.porta_on = Some(msg.d2 >= 64),
+                                    64 => m.sustain_on = Some(msg.d2 >= 64),
                                     121 => {
                                         ctx.probe(P_RESET_CONTROLLERS);
-                                        m.cc = [0; 5];
-                                        m.bend = 8192;
-                                        m.porta_on = true;
-                                        m.sustain_on = true;
+                                        m.cc = [None; 5];
+                                        m.bend = None;
+                                        m.porta_on = None;
+                                        m.sustain_on = None;
                                     }
                                     123 => {
                                         ctx.fault(F_ALL_NOTES_OFF);
@@ -530,7 +565,7 @@ impl Engine for MidiEngine {
                                 }
                             }
                         } else if msg.status >> 4 == 0xE && ex.bend_hist.len() < 512 {
-                            ex.bend_hist.push((ex.m.bend, ex.rx.pitch_bend().to_bits()));
+                            ex.bend_hist.push((ex.m.bend.unwrap_or(8192), ex.rx.pitch_bend().to_bits()));
                         }
                     }
                 }
@@ -673,22 +708,18 @@ impl Engine for MidiEngine {
             }
             Ev::Restart(ch) => {
                 ctx.fault(F_RESTART);
-                ex.rx = real!(MonoMidiReceiver::new(*ch));
-                ex.twin = real!(MonoMidiReceiver::new(*ch));
-                ex.m = Model::new(*ch);
+                // power cycle: the firmware re-applies its mode settings, everything else starts from power-on
+                let (rx, twin, m) = fresh(*ch, ex.m.priority, ex.m.retrigger);
+                ex.rx = rx;
+                ex.twin = twin;
+                ex.m = m;
                 ex.twin_dec = Decoder::default();
                 ex.foreign_left = 0;
                 ex.need_status = false;
                 ex.twin_ok = true;
                 let o = outs(&ex.rx);
-                let ok = !o.gate
-                    && o.note == 0
-                    && o.vel == 0
-                    && o.bend == 0
-                    && o.cc == [0; 5]
-                    && o.porta_on
-                    && o.sustain_on;
-                ctx.check(6, "power_on_defaults", ok, || format!("fresh receiver outputs {:?}", o));
+                // C04: no key is down after power-on
+                ctx.check(6, "gate_low_after_power_on", !o.gate, || format!("fresh receiver outputs {:?}", o));
                 ctx.transition(4 << 12 | (*ch).min(16) as u32);
             }
         }
